@@ -30,3 +30,38 @@ Theorem C08_legacy_debug_refuted : forall F, exists c1,
   next_legacy true (S F) c1 = CPanic.
 Proof. exact next_legacy_debug_refuted. Qed.
 Print Assumptions C08_legacy_debug_refuted.
+
+From Jamm Require Import SearchFacts SeekFacts.
+
+(* seek reports whether the key exists and positions iteration at that key or, if it is absent, at an
+   immediate neighbour (its predecessor or its successor) so that every later entry follows in order *)
+Theorem C08_seek_spec : forall t k, wf_tree t = true ->
+  let items := map Cursor.to_item (flatten t) in
+  exists ex l, seek_scan t k = (ex, CVal l) /\
+    (ex = true <-> In k (map lent_key (flatten t))) /\
+    (ex = true -> l = from_succ k items) /\
+    (ex = false -> l = from_pred k items \/ l = from_succ k items).
+Proof. exact seek_spec. Qed.
+Print Assumptions C08_seek_spec.
+
+(* a range scan yields exactly the entries within its bounds, for all nine combinations of bound kinds
+   (reversed bounds give the empty list because the filter is empty) *)
+Theorem C08_range_spec : forall t lo hi, wf_tree t = true ->
+  range_scan t lo hi = CVal (filter (fun i => in_bounds lo hi (item_key i)) (map Cursor.to_item (flatten t))).
+Proof. exact range_spec. Qed.
+Print Assumptions C08_range_spec.
+
+(* the bucket-only and pair-only iterators filter the cursor's output without skipping or duplicating *)
+Theorem C08_buckets_spec : forall t, wf_tree t = true ->
+  cur_map (filter is_bucket_item) (scan t) = CVal (filter is_bucket_item (map Cursor.to_item (flatten t))).
+Proof. exact buckets_spec. Qed.
+Theorem C08_pairs_spec : forall t, wf_tree t = true ->
+  cur_map (filter is_pair_item) (scan t) = CVal (filter is_pair_item (map Cursor.to_item (flatten t))).
+Proof. exact pairs_spec. Qed.
+Print Assumptions C08_pairs_spec.
+
+(* point lookups are association in the flattened (sorted) entry list *)
+Theorem C08_get_spec : forall t k, wf_tree t = true ->
+  Cursor.get t k = option_map Cursor.to_item (find (fun e => beq (lent_key e) k) (flatten t)).
+Proof. exact get_spec. Qed.
+Print Assumptions C08_get_spec.
